@@ -138,7 +138,43 @@ fn cmd_seq(args: &[String]) {
             } else {
                 "C02"
             };
-            println!("FOUND {} SEQ step={} {} || {}", tag, step, f.replace('\n', " "), seq::case_text(&case));
+            // shrink: drop operations (delta debugging: halves, quarters, ..., single operations)
+            // as long as a failure of the same kind (the text up to the first digit) remains
+            let kind_of = |x: &str| -> String { x.chars().take_while(|c| !c.is_ascii_digit()).collect() };
+            let kind = kind_of(f);
+            let mut small = case.clone();
+            let still_fails = |c: &seq::Case| -> bool {
+                let r = with_hasher!(c.hasher, S, { seq::run_case::<S>(c) });
+                r.failures.iter().any(|(_, g)| kind_of(g) == kind)
+            };
+            let mut chunk = (small.ops.len() / 2).max(1);
+            let mut budget = 400;
+            while chunk >= 1 && budget > 0 {
+                let mut i = 0;
+                let mut removed_any = false;
+                while i < small.ops.len() && budget > 0 {
+                    let mut cand = small.clone();
+                    let end = (i + chunk).min(cand.ops.len());
+                    cand.ops.drain(i..end);
+                    budget -= 1;
+                    if !cand.ops.is_empty() && still_fails(&cand) {
+                        small = cand;
+                        removed_any = true;
+                    } else {
+                        i += chunk;
+                    }
+                }
+                if chunk == 1 && !removed_any {
+                    break;
+                }
+                chunk = if chunk > 1 { chunk / 2 } else { 1 };
+            }
+            let shrunk = if small.ops.len() < case.ops.len() {
+                format!(" || shrunk to {} of {} operations: {}", small.ops.len(), case.ops.len(), seq::case_text(&small))
+            } else {
+                String::new()
+            };
+            println!("FOUND {} SEQ step={} {} || {}{}", tag, step, f.replace('\n', " "), seq::case_text(&case), shrunk);
             break;
         }
         coq.push_str(&seq::case_coq(&format!("c{}", i), &run));
@@ -168,8 +204,9 @@ fn cmd_conc(args: &[String]) {
     let only: Option<(u64, u64)> = if args.len() >= 6 && args[4] != "-" { Some((args[4].parse().unwrap(), args[5].parse().unwrap())) } else { None };
     // optional: write Coq certificates (lin_b evaluations) for the histories of the first runs
     let coq_out: Option<String> = args.get(6).cloned();
-    let mut coq = String::from("From Flurry Require Import Model.Lin Model.Check.\nImport ListNotations.\nOpen Scope Z_scope.\n");
+    let mut coq = String::from("From Flurry Require Import Model.Lin Model.Check Model.ResizeLog.\nImport ListNotations.\nOpen Scope Z_scope.\n");
     let mut coq_hist = 0usize;
+    let mut resize_logs = 0usize;
     silence_panics();
     hooks::install();
     let mut rng = types::SplitMix64(seed ^ 0xC0C0);
@@ -241,6 +278,10 @@ fn cmd_conc(args: &[String]) {
                     coq.push_str(&txt);
                     coq_hist += n;
                 }
+                let (txt, n) = resize_logs_coq(&r);
+                coq.push_str(&txt);
+                coq_hist += n;
+                resize_logs += n;
             }
             fails.extend(check_quiescent(&prog, &r));
             fails.extend(check_resize_events(&r));
@@ -276,7 +317,7 @@ fn cmd_conc(args: &[String]) {
         json!({"coq_histories": coq_hist, "runs": runs, "steps": steps, "lock_waits": lock_waits, "parks": parks, "reclaimed_blocks": reclaimed,
                "resizes": resizes, "resize_helpers": helped, "distinct_nontrivial": nontrivial.len(),
                "distinct_histories": distinct_histories.len(), "verdicts": verdicts, "found": found, "samples": samples,
-               "hb_derefs_checked": hb.0, "hb_cross_thread_derefs": hb.1, "hb_acquire_joins": hb.2})
+               "resize_logs_in_coq": resize_logs, "hb_derefs_checked": hb.0, "hb_cross_thread_derefs": hb.1, "hb_acquire_joins": hb.2})
     );
 }
 
@@ -744,6 +785,47 @@ fn cmd_directed(args: &[String]) {
         }
         if samples.len() < 8 {
             samples.push(format!("stale helper across two resize generations: {} found", stale_found));
+        }
+    }
+    // template 5 (a reader that slept through two generations): thread 0 starts a lookup and stops
+    // after k of its shared operations (it holds the 16-bin table); thread 1 alone inserts enough to
+    // complete 16 -> 32 -> 64; the reader then has to follow two levels of forwarding markers
+    if want("stalereader") {
+        for (rk, k) in [(3u32, 1u64), (3, 2), (3, 3), (15, 1), (15, 2), (40, 1), (40, 2), (0, 2), (7, 4)] {
+            let prog = Program {
+                hasher: types::H_IDENTITY,
+                cap: 8,
+                prefill: (0..11).collect(),
+                threads: vec![vec![COp::Get(rk), COp::ContainsKey(rk)], (11..36).map(|x| COp::Insert(x, 100 + x as i64)).collect()],
+                universe: 41,
+                batch: 1,
+                pin: false,
+                linger: 0,
+            };
+            let script = vec![(0usize, Cond::Steps(k)), (1usize, Cond::Done), (0, Cond::Done)];
+            let opts = RunOpts { policy: Policy::Directed(script, 0), step_limit: 60_000, freeze: None };
+            println!("AT directed template=stale_reader key={} k={} || {}", rk, k, program_text(&prog));
+            let r = with_hasher!(prog.hasher, S, { run_program::<S>(&prog, opts) });
+            runs += 1;
+            let mut fails = r.failures.clone();
+            match r.verdict {
+                Verdict::Deadlock => fails.push(format!("C11: deadlock: {}", r.statuses)),
+                Verdict::StepLimit => fails.push(format!(
+                    "C11: a lookup that started on the 16-bin table and resumed after two completed resizes does not return within the step limit (it makes shared-memory operations for ever): {}",
+                    r.statuses
+                )),
+                _ => {}
+            }
+            fails.extend(check_history(&prog, &r));
+            fails.extend(check_quiescent(&prog, &r));
+            for f in fails.iter().take(1) {
+                found += 1;
+                let tag = if f.starts_with('C') { f[..3].to_string() } else { "C11".to_string() };
+                println!("FOUND {} directed template=stale_reader key={} k={} || {} || {}", tag, rk, k, f.replace('\n', " "), program_text(&prog));
+            }
+        }
+        if samples.len() < 9 {
+            samples.push("stale reader across two completed resize generations".to_string());
         }
     }
     println!("JSON {}", json!({"runs": runs, "found": found, "samples": samples}));
